@@ -5,4 +5,4 @@ From Coq Require Import ExtrOcamlBasic.
 From Coq Require Import ZArith NArith List.
 From FR Require Import Dec Types Bank Match Step Genesis Model Spec Checkers.
 Extraction Language OCaml.
-Extraction "model.ml" step run_query run model_trans failing all_checks clearing_spec selling_pool_b paying_pool_b vesting_pool_b.
+Extraction "model.ml" step run_query run model_trans failing all_checks clearing_spec selling_pool_b paying_pool_b vesting_pool_b c09_live.
